@@ -341,9 +341,43 @@ func runCheck(args []string, opts *checkOpts) int {
 		solveAll(kfObs, outDir, short, 12)
 		solveAll(rest, outDir, timeout, 12)
 	}
+	for _, br := range prop.BoundedRuns {
+		o := &Oblig{Name: br.Name, Kind: "bounded-run", Fn: br.Function, Desc: br.Bound, Bounded: true}
+		tb := time.Now()
+		src, err := os.ReadFile(filepath.Join(verifRoot(), br.File))
+		if err != nil {
+			bindFail("bounded run source missing: " + br.File)
+			continue
+		}
+		os.Setenv("GOVC_TIER", tier)
+		overlayTestTimeout = 600
+		out, vals := runOverlayTest(filepath.Join(repoDir(), br.Dir), "zz_verif_"+filepath.Base(br.File), string(src), br.Test, "GOVC-BOUNDED ")
+		overlayTestTimeout = 60
+		o.Ms = time.Since(tb).Milliseconds()
+		o.Solver = "go test (bounded run)"
+		all = append(all, o)
+		if vals != nil && vals["ok"] == true {
+			o.Status = "unsat"
+			o.Desc = fmt.Sprintf("%s; covered: %v", br.Bound, vals)
+			continue
+		}
+		o.Status = "failed"
+		nviol++
+		rp := filepath.Join(replayDir, fileSafe(br.Name)+".json")
+		suffix := ""
+		if vals == nil {
+			suffix = " no-failing-input-found"
+		}
+		writeJSON(rp, map[string]interface{}{"property": id, "obligation": br.Name, "bounded": true, "bound": br.Bound, "test_source": filepath.Join(verifRoot(), br.File), "package_dir": br.Dir, "test": br.Test, "failing_input": vals, "output": trunc(out, 4000),
+			"how_to_rerun": "copy test_source into package_dir (any *_test.go name) and run go test -run " + br.Test})
+		violations = append(violations, fmt.Sprintf("VIOLATION property=%s replay=%s obligation=%s status=bounded-run-failed%s", id, rp, br.Name, suffix))
+	}
 	known := loadKnown()
 	var knownLines []string
 	for _, o := range all {
+		if o.Kind == "bounded-run" {
+			continue
+		}
 		if o.Kind == "vacuity" {
 			if o.Status == "unsat" && o.gen != nil && o.gen.fr != nil && o.gen.fr.c != nil && o.gen.fr.c.Dead[o.Name[strings.LastIndex(o.Name, "#")+1:]] {
 				o.Status = "sat" // declared dead code, and proved unreachable: as expected
@@ -539,7 +573,7 @@ func finish(id, tier string, seed int, prop *Prop, all []*Oblig, gens []*Gen, vi
 		"inlined_callees":          sortedBoolKeys(inlined),
 		"discharged_by_solver":     bySolver,
 		"solver_time_s":            float64(solverMs) / 1000.0,
-		"bounded":                  map[string]interface{}{"obligations": nBounded, "discharged": nBoundedOK, "functions": prop.Bounded, "note": "bounded obligations are never counted in obligations/discharged"},
+		"bounded":                  map[string]interface{}{"obligations": nBounded, "discharged": nBoundedOK, "functions": prop.Bounded, "runs": prop.BoundedRuns, "note": "bounded obligations are never counted in obligations/discharged"},
 		"vacuity":                  map[string]interface{}{"covers": covers, "covers_reached": coversReached},
 		"per_obligation":           perOb,
 		"samples":                  samples,
